@@ -81,6 +81,7 @@ class Core:
         self._feas = z3.Solver()
         self._feas.set("timeout", 250)
         self._feas_stack = []
+        self._feas_abs = None
         self._feas_axioms = 0
         self._feas_ax_seen = set()
         self._ufs = {}
@@ -313,6 +314,11 @@ class Core:
         condition (exploration is depth-first, so prefixes are shared); `unknown` counts as feasible."""
         s = self._feas
         stack = self._feas_stack
+        if self._feas_abs is None:
+            from .abstraction import Abstractor
+
+            self._feas_abs = Abstractor(self.V)
+        ab = self._feas_abs
         ids = [c.get_id() for c in st.pc]
         k = 0
         while k < len(stack) and k < len(ids) and stack[k] == ids[k]:
@@ -322,30 +328,50 @@ class Core:
             stack.pop()
         for c in st.pc[k:]:
             s.push()
-            s.add(_abstract_quant(c))
-            stack.append(c.get_id())
+            s.add(self._feas_tr(c))
+            stack.append(pin(c))
         s.push()
         try:
             if extra is not None:
-                s.add(_abstract_quant(extra))
-            for a in self.axioms[self._feas_axioms:]:
-                pass
-            for a in self.axioms:
-                if not _has_quant(a) and a.get_id() not in self._feas_ax_seen:
-                    pass
+                s.add(self._feas_tr(extra))
             for a in self.axioms:
                 if not _has_quant(a):
-                    s.add(a)
+                    s.add(self._feas_tr(a))
+            for ln in ab.len_terms.values():
+                s.add(ln >= 0)
+            lits = list(ab.literals.values())
+            if len(lits) > 1:
+                s.add(z3.Distinct(*lits))
             r = s.check()
-            if r == z3.unknown and careful:
-                s.set("timeout", 3000)
-                try:
-                    r = s.check()
-                finally:
-                    s.set("timeout", 250)
+            if r != z3.unsat and careful:
+                r = self._feasible_concrete(st, extra)
             return r != z3.unsat
         finally:
             s.pop()
+
+    def _feas_tr(self, c):
+        """quantifiers abstracted by Booleans, then the theory abstraction (pyvc/abstraction.py): both only weaken the
+        formula, so an `unsat` answer (the only one that prunes a path) stays sound"""
+        from .abstraction import Untranslatable
+
+        q = _abstract_quant(c)
+        try:
+            return self._feas_abs.tr(q)
+        except (Untranslatable, KeyError, z3.Z3Exception):
+            return z3.BoolVal(True)
+
+    def _feasible_concrete(self, st, extra):
+        """one-shot check with the sequence theory (used where a spurious alternative is expensive: dynamic dispatch)"""
+        s = z3.Solver()
+        s.set("timeout", 3000)
+        for c in st.pc:
+            s.add(_abstract_quant(c))
+        if extra is not None:
+            s.add(_abstract_quant(extra))
+        for a in self.axioms:
+            if not _has_quant(a):
+                s.add(a)
+        return s.check()
 
     def assume(self, st: State, facts):
         """extend the path condition by facts and by the ground definitional instances of the spec
@@ -432,11 +458,45 @@ def _has_ite(t):
     return False
 
 
+# z3 recycles AST ids once a term is freed: every term whose id serves as a long-lived key is kept alive here,
+# otherwise a cache entry (or a recogniser fact, or the incremental feasibility stack) can silently refer to a
+# different term later on
+_PINNED = {}
+
+
+def pin(t):
+    k = t.get_id()
+    if k not in _PINNED:
+        _PINNED[k] = t
+    return k
+
+
+def simp(t):
+    """z3.simplify, except that its rewriting of s[i] into `ite(in bounds, seq.nth_i, seq.nth_u)` is not kept:
+    those internal operators hide the element term from instantiation and from the theory abstraction"""
+    r = z3.simplify(t)
+    if z3.is_true(r) or z3.is_false(r):
+        return r
+    stack, seen = [r], set()
+    while stack:
+        x = stack.pop()
+        if x.get_id() in seen:
+            continue
+        seen.add(x.get_id())
+        if z3.is_quantifier(x):
+            stack.append(x.body())
+        elif z3.is_app(x):
+            if x.decl().name() in ("seq.nth_i", "seq.nth_u"):
+                return t
+            stack.extend(x.children())
+    return r
+
+
 _quant_cache = {}
 
 
 def _has_quant(t):
-    k = t.get_id()
+    k = pin(t)
     if k in _quant_cache:
         return _quant_cache[k]
     stack, seen, res = [t], set(), False
@@ -485,7 +545,7 @@ def _simplify_known(body, g):
             stack.extend(x.children())
     if not subs:
         return body
-    return z3.simplify(z3.substitute(body, *subs))
+    return simp(z3.substitute(body, *subs))
 
 
 def _flat_or(c, depth=0):
@@ -503,7 +563,7 @@ def _note_recognisers(c, ghost, depth=0):
         return
     k = c.decl().kind()
     if k == z3.Z3_OP_DT_IS:
-        ghost[("is", c.arg(0).get_id())] = c.decl().params()[0].name()
+        ghost[("is", pin(c.arg(0)))] = c.decl().params()[0].name()
     elif k == z3.Z3_OP_AND or (k == z3.Z3_OP_OR and c.num_args() == 1):
         for ch in c.children():
             _note_recognisers(ch, ghost, depth + 1)
@@ -514,6 +574,7 @@ def _note_recognisers(c, ghost, depth=0):
             t = alts[0].arg(0)
             if all(a.arg(0).get_id() == t.get_id() for a in alts):
                 names = {a.decl().params()[0].name() for a in alts}
+                pin(t)
                 prev = ghost.get(("in", t.get_id()))
                 ghost[("in", t.get_id())] = names if prev is None else (prev & names)
                 if len(ghost[("in", t.get_id())]) == 1:
@@ -525,7 +586,7 @@ _abs_consts = {}
 
 
 def _abstract_quant(t):
-    k = t.get_id()
+    k = pin(t)
     if k in _abs_cache:
         return _abs_cache[k]
     if not _has_quant(t):
